@@ -120,7 +120,10 @@ def check_item(rec):
             try:
                 if variant == "array":
                     for arr in (np.array([x, x]), np.array(x), np.full((2, 3), x)):
+                        keep = arr.copy()
                         res = np.asarray(fn(arr))
+                        if not np.array_equal(arr, keep):
+                            fails.append("the argument array was modified")
                         if res.shape != arr.shape:
                             fails.append(f"array argument of shape {arr.shape} gives shape {res.shape}")
                         elif not all(close(v, ref, ulp) for v in res.ravel()):
@@ -163,6 +166,13 @@ def real_round_trips(seed, count):
             fails.append("surface is not the derivative of the volume")
         pos = rng.uniform(-5, 5, dim)
         for cls in (SphericalDroplet, DiffuseDroplet):
+            z = cls(pos, 0.0)      # a vanished droplet can be given a volume again
+            try:
+                z.volume = v
+                if abs(z.volume - v) > 1e-14 * v or abs(z.radius - r) > 1e-14 * r:
+                    fails.append("setting the volume of a droplet of radius 0 and reading it back")
+            except Exception as exc:  # noqa: BLE001
+                fails.append(f"setting the volume of a droplet of radius 0 raised {type(exc).__name__}")
             d = cls(pos, r)
             d.volume = v * 1.5
             if abs(d.volume - v * 1.5) > 1e-14 * v:
